@@ -40,6 +40,13 @@ def generate(ctx, oracle):
         start = seedlist[i % len(seedlist)] if i < 2 * len(seedlist) else rng.choice(seedlist)
         for g, k in posgen.playout(oracle, start, rng, plies, bias=rng.choice([1.0, 4.0, 8.0])):
             pos.append(('playout', g)); kinds[k] = kinds.get(k, 0) + 1
+    # targeted family: every pawn square / colour with men on the capture squares; random placements (legal positions that need not be
+    # reachable from the seeds); both filtered by the executable wf below like everything else
+    for g in posgen.pawn_grid(rng):
+        pos.append(('pawn-grid', oracle.ask('rekey ' + g)))
+    for g in posgen.random_placements(rng, 500 if ctx.tier == 'quick' else 20000):
+        g2 = oracle.ask('rekey ' + g)
+        if oracle.ask('wf ' + g2) == '1': pos.append(('random-placement', g2))
     # colour mirrors of a sample (exercise the black code paths on the same geometry)
     sample = rng.sample(pos, min(len(pos), 150 if ctx.tier == 'quick' else 3000))
     for fam, g in sample:
